@@ -66,7 +66,7 @@ _STATE = {}
 
 
 def plan(tier):
-    return {'shards': 16, 'budget_s': 30 if tier == 'quick' else 700}
+    return {'shards': 16, 'budget_s': 25 if tier == 'quick' else 700}
 
 
 def shard_setup(rec, tier):
@@ -616,6 +616,8 @@ class Driver:
         for i in range(n):
             data = b'bulk orphan %d of history %d' % (i, self.seed)
             h = blobbook.blob_name_of(data)
+            if os.path.isdir(os.path.join(self.bdir, h)):      # an earlier `add dir_known` took the name
+                continue
             with open(os.path.join(self.bdir, h), 'wb') as f:
                 f.write(data)
             if i < 5:
